@@ -37,7 +37,7 @@ def declared_names(mode, outputs):
 class C07(C.PipelineCheck):
     id = 'C07'
     title = 'types.ts declares exactly the serde types reachable from the public surface'
-    required_covers = ('shape:cycle', 'shape:dag', 'root:param', 'root:return', 'root:result-ok', 'root:channel', 'root:payload', 'two-files', 'error-arm', 'error-arm+event')
+    required_covers = ('shape:cycle', 'shape:dag', 'root:param', 'root:return', 'root:result-ok', 'root:channel', 'root:payload', 'two-files', 'error-arm', 'error-arm+event', 'derive-style:1', 'derive-style:3')
 
     def bounds(self, tier):
         q = tier != 'thorough'
@@ -127,7 +127,14 @@ class C07(C.PipelineCheck):
                 e.cover('error-arm')
             if split:
                 e.cover('two-files')
-            files, exp, allnames = G.build(shape, names, ectx, site, rctx, split=split, enum_leaf=(kind == 'shape' and e.choose(2) == 1), extra_root=extra, err_type=err)
+            # the derive that makes a type a serde type, spelled in every way rustc accepts (node 1, or the root of a single-node shape)
+            dstyle = 0
+            if kind == 'shape':
+                styles = (0, 1, 3) if ctx.tier != 'thorough' else (0, 1, 2, 3, 4)
+                dstyle = styles[e.choose(len(styles))]
+                e.cover('derive-style:%d' % dstyle)
+            files, exp, allnames = G.build(shape, names, ectx, site, rctx, split=split, enum_leaf=(kind == 'shape' and e.choose(2) == 1), extra_root=extra, err_type=err,
+                                           derive_style=dstyle)
             if kind == 'error-arm' and e.choose(2) == 1:
                 # an event whose payload no command reaches: its types are declared, the error-only type still is not
                 files['src/evt.rs'] = (C.HEADER + '#[derive(Serialize, Deserialize, Clone)]\npub struct EvtOnly { pub stage: EvtStage }\n'
